@@ -16,6 +16,7 @@ func init() {
 		ruleT1(c, "C03.T1")
 		ruleT2(c, "C03.T2")
 		ruleT3(c, "C03.T3")
+		ruleSlot(c, "C03.T4")
 	}
 }
 
@@ -444,3 +445,61 @@ func paramSpilledTo(fn *ssa.Function, al *ssa.Alloc) *ssa.Parameter {
 }
 
 var _ = strings.HasPrefix
+
+// ---------------------------------------------------------------- slot under lock
+
+// ruleSlot: the cached copy of an inode is reached only under that inode's
+// lock.  The inode cache evicts slots that are in use, so a slot pointer taken
+// before the lock was acquired may no longer be the slot other transactions
+// see: two copies of one inode, the older one written over the newer.
+func ruleSlot(c *Ctx, id string) {
+	V, P, R := c.V, c.P, c.R
+	R.Rule(id, "the inode-cache slot of a number is looked up only while that number's lock is held: in LockInode after Lockmap.Acquire of the same number on every path, in dropInodes for the inodes recorded as locked; nowhere else", 2)
+	look := c.fn(id, "cache.(*Cache).LookupSlot")
+	if look == nil || V.LockInode == nil || V.LockAcquire == nil {
+		return
+	}
+	drop := P.Func("fstxn.(*FsTxn).dropInodes")
+	n := 0
+	for _, cs := range P.CallersOf(look) {
+		fn := cs.Caller
+		if !IsRepoFunc(fn) || !inServerPkg(fn) {
+			continue
+		}
+		n++
+		R.Analysed[FuncName(fn)] = true
+		arg := stripConv(argN(cs.Instr, 0))
+		owner := fn
+		if fn != V.LockInode && fn != drop {
+			owner = ownerOf(fn) // a block of statements extracted from one of the two
+		}
+		key := FuncName(owner) + "|slot looked up under the lock"
+		switch owner {
+		case V.LockInode:
+			isAcq := func(in ssa.Instruction) bool {
+				return callTo(V.LockAcquire)(in) && stripConv(argN(in, 0)) == arg
+			}
+			R.Check(MustBefore(fn, isAcq)(cs.Instr), id, key, P.Pos(cs.Instr.Pos()), "Lockmap.Acquire(inum) precedes Icache.LookupSlot(inum) on every path", "must-precede, same number", "the slot is looked up before the lock is held: while the request waits for the lock the slot can be evicted and re-created, and the request then works on (and writes back) a stale private copy of the inode")
+		case drop:
+			// the numbers are those of the inodes this transaction has locked
+			okHeld := false
+			if nm, fl, base, _ := loadedField(arg); nm == V.Inode && fl == "Inum" {
+				for w := range bwdSources(base) {
+					if nx, ok := w.(*ssa.Next); ok {
+						if rg, ok := nx.Iter.(*ssa.Range); ok {
+							if n2, f2, _, _ := loadedField(rg.X); n2 == V.FsTxn && f2 == "inodes" {
+								okHeld = true
+							}
+						}
+					}
+				}
+			}
+			R.Check(okHeld, id, key, P.Pos(cs.Instr.Pos()), "dropInodes looks up the slots of the inodes recorded in op.inodes (locked by this transaction)", "range over op.inodes", "a slot of an inode this transaction does not hold is cleared")
+		default:
+			R.Fail(id, FuncName(fn)+"|slot lookup site", P.Pos(cs.Instr.Pos()), "Icache.LookupSlot is called only by LockInode and dropInodes", "a new lookup site outside the lock discipline")
+		}
+	}
+	if n == 0 {
+		R.Fail(id, "cache.LookupSlot|callers", P.Pos(look.Pos()), "the inode cache is used", "no caller found")
+	}
+}
